@@ -96,7 +96,7 @@ func randAnyDouble(rng *rand.Rand) float64 {
 	return randDouble(rng)
 }
 
-var c17Strs = []string{"", " ", "plain", "with space", "non-ascii é 日本", "tab\there", "brackets [1, 2]", "braces {k: v}", "comma, colon: x", "<circular reference>", "null", "12"}
+var c17Strs = []string{"%", "100%", "%d items %s", "50%% off", "", " ", "plain", "with space", "non-ascii é 日本", "tab\there", "brackets [1, 2]", "braces {k: v}", "comma, colon: x", "<circular reference>", "null", "12"}
 
 func (g *c17Gen) value(depth int) any {
 	k := g.rng.IntN(12)
